@@ -26,7 +26,7 @@ META = dict(
           'non-trivial when the value has a container or a non-ASCII/control character or special float, a history has at least one successful write followed by a read'),
     trusted_base=['extraction: ExtrOcamlBasic only; ocaml/main.ml lexer/printer; cross-checked against vm_compute on a sample',
                   'harness/props/c05.py converts Python values / JSON objects / file trees to wire trees (py_to_pv, json_to_jv, dump_memfs)'],
-    assumptions=['json.dumps / json.loads are Section variables of Proofs/JsonProofs.v with the hypothesis loads (dumps j) = Some j for string-keyed j; '
+    assumptions=['json.dumps / json.loads are Section variables (Model/Json.v Section Text, Proofs/JsonStrProofs.v Section TextLayer) with the hypothesis loads (dumps j) = Some j for sj_ok j (string keys, distinct, no adjacent surrogate pair); '
                  'the harness checks this equation with Python\'s json on every generated case',
                  'Python int() accepts more spellings than the model\'s parse_int ([+-]?[0-9]+): blanks, underscores, non-ASCII digits; they occur only after the reserved key prefix n_:'],
 )
@@ -973,6 +973,7 @@ def special_objects():
   add('spec', 'frozen', lambda: T.Int().freeze(1))
   add('schema', 'class-schema', lambda: CT.__schema__)
   add('schema', 'field', lambda: T.Field('k', T.Int(), 'doc', {'m': 1}))
+  add('schema', 'empty-schema', lambda: CB.__schema__)
   add('typed-object', 'CT-minimal', lambda: CT(i=1))
   add('typed-object', 'CT-full', lambda: CT(i=-4, l=[1, 2, 3], d=dict(p=5, q='s'), f=2.25, t=(1, 'a'), u='text', o=CA(1, [2]), e=3))
   add('typed-object', 'CT-bool-union', lambda: CT(i=0, u=True, e='b'))
@@ -990,6 +991,81 @@ def special_objects():
   add('dna', 'with-spec', lambda: p.DNA(1).use_spec(p.dna_spec(p.oneof([1, 2, 3]))))
   add('dna', 'with-metadata', lambda: p.DNA([0, 1]).set_metadata('reward', 1.5, cloneable=True))
   add('dna', 'none', lambda: p.DNA(None))
+  return out
+
+def random_specials(r, n, vg):
+  """random typed objects, value specs, search spaces with their DNA specs and DNA (oracle only)"""
+  p = pg()
+  T = p.typing
+  CA, CB, CC = (_PG['classes'][k] for k in ('CA', 'CB', 'CC'))
+  CT, CD = _PG['typed']['CT'], _PG['typed']['CD']
+  def rint(): return r.choice([0, 1, -1, 7, 2 ** 40, -2 ** 70, r.randint(-99, 99)])
+  def rstr(): return unS([c for c in S(vg.string(False)) if not 0xd800 <= c <= 0xdfff])[:6]
+  def rfloat(): return r.choice([0.0, -0.0, 0.5, 1e300, -2.25, 1 / 3, float('inf'), r.random()])
+  def ct():
+    kw = dict(i=rint())
+    if r.random() < .6: kw['l'] = [rint() for _ in range(r.randint(0, 3))]
+    if r.random() < .6: kw['d'] = dict(p=rint(), q=r.choice([None, rstr()]))
+    if r.random() < .5: kw['f'] = rfloat()
+    if r.random() < .5: kw['t'] = r.choice([None, (rint(), rstr())])
+    if r.random() < .6: kw['u'] = r.choice([rint(), rstr(), True, False])
+    if r.random() < .4: kw['o'] = r.choice([None, CA(rint(), [rstr()]), CA(x=(1, rstr()), y=p.Dict({rint(): None}))])
+    if r.random() < .5: kw['e'] = r.choice(['a', 'b', 3])
+    return CT(**kw)
+  def cd():
+    return CD(m={rstr() or 'k': rint() for _ in range(r.randint(0, 3))}, n=[ct() for _ in range(r.randint(0, 2))])
+  def spec(d):
+    k = r.randrange(12 if d > 0 else 6)
+    if k == 0:
+      lo = r.choice([None, -5]); hi = r.choice([None, 50]); de = r.choice([p.MISSING_VALUE, 3])
+      v = T.Int(default=de, min_value=lo, max_value=hi)
+    elif k == 1: v = T.Float(default=r.choice([p.MISSING_VALUE, 0.5]), min_value=r.choice([None, 0.0]))
+    elif k == 2: v = T.Str(default=r.choice([p.MISSING_VALUE, 'abc']), regex=r.choice([None, 'a.*']))
+    elif k == 3: v = T.Bool(default=r.choice([p.MISSING_VALUE, True, False]))
+    elif k == 4:
+      vals = r.sample(['a', 'b', 1, 2, None, 'c'], r.randint(1, 4))
+      v = T.Enum(r.choice([p.MISSING_VALUE, vals[0]]), vals)
+    elif k == 5: v = r.choice([T.Any(), T.Any(default=1), T.Object(CA), T.Type(CB), T.Object(CT)])
+    elif k == 6: v = T.List(spec(d - 1), min_size=r.choice([0, 1]), max_size=r.choice([None, 4]))
+    elif k == 7: v = T.Tuple([spec(d - 1) for _ in range(r.randint(1, 3))])
+    elif k == 8: v = T.Tuple(spec(d - 1), min_size=r.choice([0, 1]), max_size=r.choice([None, 3]))
+    elif k == 9:
+      fields = [('k%d' % i, spec(d - 1)) for i in range(r.randint(1, 3))]      # an empty schema: the fixed case 'empty-schema'
+      if r.random() < .3: fields.append((T.StrKey('x.*'), spec(d - 1)))
+      v = T.Dict(fields)
+    elif k == 10:
+      cands = [T.Int(), T.Str(), T.Bool(), T.Float(), T.Object(CA), T.List(T.Int())]
+      v = T.Union(r.sample(cands, r.randint(2, 4)))
+    else: v = T.Callable([T.Int()] if r.random() < .5 else [], returns=r.choice([None, T.Str()]))
+    if r.random() < .25 and k not in (4,):
+      v = v.noneable()
+    return v
+  def space(d):
+    k = r.randrange(6 if d > 0 else 3)
+    if k == 0: return p.oneof([rint(), rstr(), r.choice([None, 1.5])])
+    if k == 1: return p.floatv(-1.0, r.choice([1.0, 5.0]))
+    if k == 2: return p.manyof(r.randint(1, 2), ['x', 'y', 'z', 1], distinct=r.random() < .5, sorted=r.random() < .5)
+    if k == 3: return p.oneof([space(d - 1), rint(), space(d - 1)])
+    if k == 4: return p.Dict({'k%d' % i: space(d - 1) for i in range(r.randint(1, 3))})
+    return p.List([space(d - 1), CA(space(d - 1), rint())])
+  out = []
+  for i in range(n):
+    x = r.random()
+    if x < .3:
+      v = ct() if r.random() < .7 else cd()
+      out.append(('typed-object', 'random-%s' % type(v).__name__, (lambda v=v: v)))
+    elif x < .6:
+      v = spec(r.choice([0, 1, 2]))
+      out.append(('spec', 'random-%s' % type(v).__name__, (lambda v=v: v)))
+    elif x < .7:
+      cls = r.choice([CT, CD, CA])
+      out.append(('schema', 'schema-of-%s' % cls.__name__, (lambda c=cls: c.__schema__)))
+    else:
+      sp = space(r.choice([0, 1, 2]))
+      ds = p.dna_spec(sp)
+      dna = p.random_dna(ds, r)
+      which = r.choice(['hyper', 'dna-spec', 'dna', 'dna'])
+      out.append((which, 'random', (lambda w=which, sp=sp, ds=ds, dna=dna: dict(hyper=sp, **{'dna-spec': ds, 'dna': dna})[w])))
   return out
 
 def special_oracle(kind, name, make):
@@ -1051,7 +1127,7 @@ def run(ctx):
       [7, [[[1, 1], [2, 1]], [[1, -5], [2, 2]], [[0, S('1')], [2, 3]]]], [3, [1]], [3, [2]], [3, [3]], [3, [4]], [4, [0, 10, 0xd800, 0x1f600, 0x10ffff]],
       [8, S(keys[0]), [[S('x'), [6, [[2, 1]]]], [S('y'), [7, [[[1, 2 ** 70], [0]]]]]]], [6, [[6, [[6, [[6, [[2, 1]]]]]]]]],
   ]
-  nvalues = ctx.scale(1200, 25000)
+  nvalues = ctx.scale(3000, 25000)
   values = list(corpus)
   while len(values) < nvalues:
     values.append(vg.value(r.choice([0, 1, 2, 2, 3, 3, 4])))
@@ -1080,7 +1156,7 @@ def run(ctx):
         out = [1, 78, S(type(e).__name__)]
       add_case([0, [q, ct, kind, t]], out, dict(part='value', kind=kind, value=t))
       ctx.count(('v', kind, json.dumps(t)), nontrivial=nontrivial, kind='value-kind-%d' % kind,
-                sample=dict(kind=kind, value=clean(repr(pv_to_py(t)))[:200]) if nontrivial and len(ctx.samples) < 2 else None)
+                sample=dict(kind=kind, value=clean(repr(pv_to_py(t)))[:200]) if nontrivial and depth_of(t) >= 2 and kind in (1, 3) and len(ctx.samples) < 3 else None)
     # the hypothesis of the string-form theorem, on Python's json
     try:
       sj = json.loads(p.to_json_str(pv_to_py(t)))
@@ -1097,7 +1173,7 @@ def run(ctx):
   ctx.extra['json_text_hypothesis_checked_on'] = hyp_checked
 
   # ---- (a') decoding of JSON trees near the image -------------------------------------------------
-  nmut = ctx.scale(500, 8000)
+  nmut = ctx.scale(1200, 8000)
   for _ in range(nmut):
     t = vg.value(r.choice([1, 2, 3]))
     try:
@@ -1121,7 +1197,7 @@ def run(ctx):
     ctx.hist('decode_outcome', 'ok' if out[0] == 0 else 'error-%s' % out[1])
 
   # ---- (b) file-system histories -----------------------------------------------------------------
-  nhist = ctx.scale(250, 4000)
+  nhist = ctx.scale(600, 4000)
   std_base = os.path.join(ctx.workdir, 'std')
   for i in range(nhist):
     ops = gen_fs_history(r, vg_plain, r.randint(4, 30))
@@ -1131,13 +1207,13 @@ def run(ctx):
       ctx.hit(sig, clean(what), dict(part='fs', ops=ops))
     nt = any(o['op'] in ('save', 'write', 'seqwrite') and a[0] == 0 for o, a in zip(ops, mo)) and any(o['op'] in ('read', 'seqread') for o in ops)
     ctx.count(('fs', json.dumps(ops)), nontrivial=nt, kind='fs-history',
-              sample=dict(history=[(o['op'], o['path']) for o in ops][:12]) if nt and i < 2 else None)
+              sample=dict(history=[(o['op'], o['path']) for o in ops][:12]) if nt and len(ctx.samples) < 5 else None)
     for o, a in zip(ops, mo):
       ctx.hist('fs_ops', '%s:%s' % (o['op'], 'ok' if a[0] != 9 else 'err%d' % a[1]))
     oracle_evals += 1
 
   # ---- (c) record sequences ------------------------------------------------------------------------
-  nseq = ctx.scale(250, 4000)
+  nseq = ctx.scale(600, 4000)
   for i in range(nseq):
     disciplined = i % 2 == 0
     ops = gen_seq_history(r, vg_plain, r.randint(3, 25), disciplined)
@@ -1149,7 +1225,7 @@ def run(ctx):
     for o, a in zip(ops, outs):
       ctx.hist('seq_ops', '%s:%s' % (o['op'], {8: 'ValueError', 9: 'bad-handle', 99: 'other'}.get(a[0], 'ok')))
     oracle_evals += 1
-  njl = ctx.scale(60, 800)
+  njl = ctx.scale(150, 800)
   std_jl = os.path.join(ctx.workdir, 'jl'); os.makedirs(std_jl, exist_ok=True)
   for i in range(njl):
     fresh_memfs()
@@ -1173,7 +1249,7 @@ def run(ctx):
     os.chdir(cwd)
 
   # ---- (d) classes, functions, value specs, DNA specs, DNA: oracle only ---------------------------
-  for kind, name, make in special_objects():
+  for kind, name, make in special_objects() + random_specials(r, ctx.scale(300, 4000), vg_plain):
     try:
       hits = special_oracle(kind, name, make)
     except Exception as e:
